@@ -342,14 +342,14 @@ int tokens_get(AsmContext *asm_context, char *token, int len)
         asm_context->strings_have_dots &&
         token_is_not_number(token, ptr))
     {
-      token[ptr++] = ch;
+      if (ptr < len - 3) { token[ptr++] = ch; }
       continue;
     }
 
     if (ch == '/' && ptr != 0 &&
         token_type == TOKEN_STRING && asm_context->strings_have_slashes)
     {
-      token[ptr++] = ch;
+      if (ptr < len - 3) { token[ptr++] = ch; }
       continue;
     }
 
@@ -615,6 +615,15 @@ int tokens_get(AsmContext *asm_context, char *token, int len)
           tokens_unget_char(asm_context, ch);
           break;
         }
+      }
+
+      // Leave room for the terminator and for the prefixes added above.
+      if (ptr >= len - 3)
+      {
+        print_error(asm_context, "Token too long");
+        asm_context->error_count++;
+        token[ptr] = 0;
+        return TOKEN_EOF;
       }
 
       token[ptr++] = ch;
